@@ -725,13 +725,15 @@ def normalize(tree, modname, reference):
 
 # ---------------------------------------------------------------- new explaining locals
 
-_PURE_CALLS = {"len", "min", "max", "int", "abs", "isinstance", "issubclass", "bool", "tuple", "divmod", "float", "str"}
+_PURE_CALLS = {"len", "min", "max", "int", "abs", "isinstance", "issubclass", "bool", "tuple", "divmod", "float", "str", "bytes", "range"}
+_PURE_DOTTED = {"struct.unpack", "struct.pack", "struct.calcsize", "struct.unpack_from", "socket.inet_aton", "socket.inet_ntoa"}
 
 
 def _is_pure(e):
     for n in ast.walk(e):
         if isinstance(n, ast.Call):
-            if not (isinstance(n.func, ast.Name) and n.func.id in _PURE_CALLS and not n.keywords):
+            dotted = _text(n.func)
+            if not ((isinstance(n.func, ast.Name) and n.func.id in _PURE_CALLS and not n.keywords) or dotted in _PURE_DOTTED):
                 return False
         elif isinstance(n, (ast.Lambda, ast.ListComp, ast.SetComp, ast.DictComp, ast.GeneratorExp, ast.Yield, ast.YieldFrom, ast.Await, ast.NamedExpr, ast.Starred,
                             ast.List, ast.Dict, ast.Set, ast.JoinedStr)):
@@ -1065,7 +1067,7 @@ def _sig(node, names):
 def construct_signatures(fn):
     """kind -> sorted signatures of the statement-level constructs the respelling pass knows, for the reference"""
     names = {n.id for n in ast.walk(fn) if isinstance(n, ast.Name) and isinstance(n.ctx, ast.Store)}
-    out = {"ifexp": [], "tupleassign": [], "unpack1": [], "chained": [], "nameloop": [], "while": []}
+    out = {"ifexp": [], "tupleassign": [], "unpack1": [], "chained": [], "nameloop": [], "while": [], "storealias": [], "rowloop": []}
     for n in _own_nodes(fn):
         if isinstance(n, ast.Assign):
             if isinstance(n.value, ast.IfExp):
@@ -1077,8 +1079,12 @@ def construct_signatures(fn):
                     out["tupleassign"].append(_sig(n, names))
             if len(n.targets) > 1:
                 out["chained"].append(_sig(n, names))
+            if len(n.targets) == 1 and isinstance(n.targets[0], ast.Attribute) and isinstance(n.value, ast.Name) and n.value.id in names:
+                out["storealias"].append(_sig(n, names))
         elif isinstance(n, ast.For) and isinstance(n.iter, (ast.Tuple, ast.List)) and n.iter.elts and all(isinstance(e, ast.Constant) and isinstance(e.value, str) for e in n.iter.elts):
             out["nameloop"].append(_sig(n, names))
+        elif isinstance(n, ast.For) and isinstance(n.iter, (ast.Tuple, ast.List)):
+            out["rowloop"].append(_sig(n, names))
         elif isinstance(n, ast.While):
             out["while"].append(_sig(n.test, names))
     return {k: sorted(v) for k, v in out.items() if v}
@@ -1104,10 +1110,10 @@ def respell_new_constructs(tree, modname, reference, qualnames_fn):
             continue
         have = {k: list(v) for k, v in cons.get(q, {}).items()}
         cur = construct_signatures(fn)
-        if all(len(cur.get(k, [])) <= len(have.get(k, [])) for k in cur):
-            continue
         names = {n.id for n in ast.walk(fn) if isinstance(n, ast.Name) and isinstance(n.ctx, ast.Store)}
         known_locals = {b[0] for b in ref.get(q, [])}
+        if all(len(cur.get(k, [])) <= len(have.get(k, [])) for k in cur):
+            continue
 
         def is_new(kind, node):
             s_ = _sig(node, names)
@@ -1131,9 +1137,47 @@ def respell_new_constructs(tree, modname, reference, qualnames_fn):
                 for h_ in getattr(st, "handlers", []) or []:
                     h_.body = block(h_.body)
                 new = None
-                if isinstance(st, ast.Assign):
+                # v = E  directly followed by a NEW statement  self.f = v : in the rest of the block, where neither v nor self.f
+                # can change, the attribute is the variable
+                if isinstance(st, ast.Assign) and len(st.targets) == 1 and isinstance(st.targets[0], ast.Name) \
+                        and i + 1 < len(stmts) and isinstance(stmts[i + 1], ast.Assign) and len(stmts[i + 1].targets) == 1 \
+                        and isinstance(stmts[i + 1].value, ast.Name) and stmts[i + 1].value.id == st.targets[0].id \
+                        and isinstance(stmts[i + 1].targets[0], ast.Attribute) and _is_simple_arg(stmts[i + 1].targets[0]) \
+                        and is_new("storealias", stmts[i + 1]):
+                    v_ = st.targets[0].id
+                    a_ = stmts[i + 1].targets[0]
+                    after = [n for s_ in stmts[i + 2:] for n in ast.walk(s_)]
+                    base_ = _text(a_.value)
+                    disturbed = any(
+                        (isinstance(n, ast.Attribute) and isinstance(n.ctx, (ast.Store, ast.Del)) and _text(n) == _text(a_))
+                        or (isinstance(n, ast.Name) and n.id == v_ and isinstance(n.ctx, (ast.Store, ast.Del)))
+                        or (isinstance(n, ast.Call) and ((isinstance(n.func, ast.Attribute) and _text(n.func.value) == base_)
+                                                         or any(_text(x) == base_ for x in n.args)))
+                        or isinstance(n, (ast.FunctionDef, ast.Lambda))
+                        for n in after)
+                    if not disturbed:
+                        class A_(ast.NodeTransformer):
+                            def visit_Name(self, node):
+                                if isinstance(node.ctx, ast.Load) and node.id == v_:
+                                    x = copy.deepcopy(a_)
+                                    x.ctx = ast.Load()
+                                    return ast.copy_location(x, node)
+                                return node
+                        for s_ in stmts[i + 2:]:
+                            A_().visit(s_)
+                        if _is_pure(st.value):
+                            stmts[i + 1].value = copy.deepcopy(st.value)
+                            v_stores = sum(1 for n in ast.walk(fn) if isinstance(n, ast.Name) and n.id == v_ and isinstance(n.ctx, (ast.Store, ast.Del)))
+                            v_loads = sum(1 for n in ast.walk(fn) if isinstance(n, ast.Name) and n.id == v_ and isinstance(n.ctx, ast.Load))
+                            if v_stores == 1 and v_loads == 0:
+                                new = []           # the variable is gone: drop its definition
+                        count += 1
+                if new is None and isinstance(st, ast.Assign):
                     tg = st.targets
-                    if isinstance(st.value, ast.IfExp) and len(tg) == 1 and is_new("ifexp", st):
+                    if isinstance(st.value, ast.IfExp) and len(tg) == 1 and isinstance(tg[0], ast.Name) and tg[0].id not in known_locals and _is_pure(st.value) \
+                            and sum(1 for n in ast.walk(fn) if isinstance(n, ast.Name) and n.id == tg[0].id and isinstance(n.ctx, ast.Store)) == 1:
+                        pass            # a new explaining local: left for inline_new_locals
+                    elif isinstance(st.value, ast.IfExp) and len(tg) == 1 and is_new("ifexp", st):
                         new = [ast.If(test=st.value.test, body=[ast.Assign(targets=[copy.deepcopy(tg[0])], value=st.value.body)],
                                       orelse=[ast.Assign(targets=[copy.deepcopy(tg[0])], value=st.value.orelse)])]
                     elif len(tg) == 1 and isinstance(tg[0], (ast.Tuple, ast.List)) and len(tg[0].elts) == 1 and is_new("unpack1", st):
